@@ -319,6 +319,19 @@ class Interp:
             if isinstance(raw, staticmethod):
                 return raw.__func__
             return self.lift(raw)
+        if isinstance(obj, tuple) and hasattr(type(obj), "_fields") and S.is_repo_file(
+                getattr(inspect.getmodule(type(obj)), "__file__", "") or ""):
+            raw = self.lookup_class_attr(type(obj), name)
+            if isinstance(raw, types.FunctionType):
+                return Bound(raw, obj)
+            if isinstance(raw, property):
+                return self.call(raw.fget, [obj], {}, node)
+            if raw is not _MISSING:
+                return getattr(obj, name)
+        if isinstance(obj, bool) and name in ("all", "any", "item", "tolist"):
+            r = self.lib.getattr(self, obj, name, node)
+            if r is not _MISSING:
+                return r
         if isinstance(obj, (SV, SStr, SSeq, SRange, LibObj, ExcVal, NDArr)) or (
                 isinstance(obj, (tuple, list, dict, set)) and True):
             r = self.lib.getattr(self, obj, name, node)
@@ -629,7 +642,9 @@ class Interp:
     # ------------------------------------------------------------------ calls
     def make_func(self, native):
         """Interpreted view of a native repository function."""
-        if native.__code__.co_filename == "<string>":
+        if native.__code__.co_filename == "<string>" and native in S.REGISTERED_SOURCES:
+            fi, node = S.REGISTERED_SOURCES[native]
+        elif native.__code__.co_filename == "<string>":
             fi, node = S.find_generated(native)      # exec()-generated: matched by bytecode with the running function
         else:
             fi, node = S.find_node_for_code(native.__code__)
@@ -686,6 +701,11 @@ class Interp:
         r = self.lib.construct(self, cls, args, kwargs, node)
         if r is not _MISSING:
             return r
+        if issubclass(cls, tuple) and hasattr(cls, "_fields"):
+            try:
+                return cls(*args, **kwargs)       # NamedTuple: generated, pure constructor
+            except TypeError as ex:
+                self.fail("TypeError", str(ex), node)
         mod = inspect.getmodule(cls)
         if mod is None or not S.is_repo_file(getattr(mod, "__file__", "") or ""):
             raise Unsupported(f"instantiation of unmodelled class {cls.__module__}.{cls.__name__}")
@@ -1369,6 +1389,13 @@ class Interp:
         if isinstance(e.func, ast.Name) and e.func.id == "super" and not e.args:
             return self.make_super(frame, e)
         fn = self.eval(e.func, frame)
+        if fn is builtins.globals and not e.args:
+            fr = frame
+            while fr.func is None and fr.parent is not None:
+                fr = fr.parent
+            return fr.func.globals if fr.func is not None else {}
+        if fn is builtins.locals and not e.args:
+            return frame.locals
         args = []
         for a in e.args:
             if isinstance(a, ast.Starred):
